@@ -2,7 +2,8 @@
 
 Real functions: Tdf.new, Tdf.copy, Tdf.__init__, Tdf.__enter__ on SymFS.
 Symbolic: the full content and geometry of pre-existing files, datetime.now().
-Enumerated: target kinds (absent, TDF, non-TDF, empty), source states.
+Enumerated: target kinds (absent, TDF, non-TDF, empty, symlink to one of those), source
+states, source opened directly or through a symbolic link.
 """
 from symtdf import symfile as SF
 from symtdf.runner import Instance
@@ -15,8 +16,8 @@ META = {
     "explanation": "symbolic execution of the real Tdf.new / Tdf.copy / open path on a symbolic file system: contents and geometry of existing files are solver variables; the created file is parsed by the independent parser",
     "bounds": {"quick": {"existing_target": "TDF with N in {1,2} and 0-2 live blocks (symbolic), raw files of 0-20 symbolic bytes", "source": "N=2 with 0-2 live blocks"},
                "thorough": {"existing_target": "TDF with N in 1-4 and 0-3 live blocks, raw files of 0-300 symbolic bytes", "source": "N in {1,2,3,4,6} with 0-3 live blocks, every target kind"}},
-    "outside_bounds": ["directories, permissions, symlinks, races between exists() and open()", "I/O errors"],
-    "assumptions": ["SymFS: exists/open/stat/copyfile as modelled (copyfile = byte copy of the committed content)", "datetime.now() arbitrary within 32-bit seconds"],
+    "outside_bounds": ["directories, permissions, dangling or cyclic symlinks, hard links, races between exists() and open()", "I/O errors"],
+    "assumptions": ["SymFS: exists/open/stat/copyfile as modelled (copyfile = byte copy of the committed content; symbolic links to regular files are followed by exists/open/stat and by copyfile unless follow_symlinks=False, which duplicates the link)", "datetime.now() arbitrary within 32-bit seconds"],
 }
 
 
@@ -33,6 +34,11 @@ def _target(I, fs, kind, name):
         k = int(kind[3:])
         fs.create_raw(name, I.rawbytes("tg.raw", k))
         return ("raw", None, k)
+    if kind.startswith("lnk:"):
+        # the target path is a symbolic link to an existing file
+        info = _target(I, fs, kind[4:], "real." + name)
+        fs.symlink(name, "real." + name)
+        return info
     raise ValueError(kind)
 
 
@@ -93,7 +99,8 @@ def new_case(kind):
     return h
 
 
-def copy_case(src_kind, dst_kind, later):
+def copy_case(src_kind, dst_kind, later, via_link=False):
+    """via_link: the source Tdf is opened through a symbolic link to s.tdf."""
     def h(I):
         def P(label, cond, note=""):
             return I.prove(f"C17.{label}", cond, note)
@@ -105,7 +112,9 @@ def copy_case(src_kind, dst_kind, later):
         spre = fs.obs("s.tdf")
         tinfo = _target(I, fs, dst_kind, "d.tdf")
         dpre = fs.obs("d.tdf") if tinfo else None
-        src = Tdf(fs.path("s.tdf"))
+        if via_link:
+            fs.symlink("ln.tdf", "s.tdf")
+        src = Tdf(fs.path("ln.tdf" if via_link else "s.tdf"))
         try:
             cp = src.copy(fs.path("d.tdf"))
             exc = None
@@ -228,6 +237,13 @@ def instances(tier):
             out.append(Instance(f"copy.{s}.to.{d}", copy_case(s, d, None), goals=["absent" if d == "absent" else "exists"]))
         for later in ("mutate_copy", "mutate_source"):
             out.append(Instance(f"copy.{s}.then.{later}", copy_case(s, "absent", later), goals=["absent"]))
+    for s in (["tdf21"] if q else ["tdf21", "tdf20", "tdf32"]):
+        for later in ("mutate_copy", "mutate_source"):
+            out.append(Instance(f"copy.{s}.via_symlink.then.{later}", copy_case(s, "absent", later, via_link=True), goals=["absent"]))
+        for d in ("lnk:tdf21", "lnk:raw5"):
+            out.append(Instance(f"copy.{s}.to.{d}", copy_case(s, d, None), goals=["exists"]))
+    for k in ("lnk:tdf21", "lnk:raw0", "lnk:raw5"):
+        out.append(Instance(f"new.{k}", new_case(k), goals=["exists"]))
     for op in ("new", "copy"):
         for sk in ("tdf21", "raw5", "raw0"):
             out.append(Instance(f"sibling.{op}.{sk}", sibling_case(op, sk), goals=["done"]))
